@@ -117,11 +117,14 @@ structure DfsState where
   stop : Bool
   deriving Repr
 
-/-- `backtrack`: returns the state after exploring the subtree below `D` -/
-def backtrack (repaired : Bool) (cs : List Con) (limit : Nat) : Nat → Doms → DfsState → DfsState
+/-- `backtrack`, generic in the variable selection `sel` and in the order `ord D v` in which the
+values of the selected variable are tried (CPython iterates a set in an unspecified order):
+returns the state after exploring the subtree below `D` -/
+def backtrackG (sel : Doms → Option Nat) (ord : Doms → Nat → List Int) (repaired : Bool) (cs : List Con)
+    (limit : Nat) : Nat → Doms → DfsState → DfsState
   | 0, _, st => st
   | fuel + 1, D, st =>
-    match pickVar D with
+    match sel D with
     | none =>
       let a : Asg := D.map fun d => d.headD 0
       if repaired && !(cs.all (check a)) then st
@@ -129,23 +132,40 @@ def backtrack (repaired : Bool) (cs : List Con) (limit : Nat) : Nat → Doms →
         let sols := if repaired && st.sols.contains a then st.sols else st.sols ++ [a]
         ⟨sols, decide (sols.length ≥ limit)⟩
     | some v =>
-      (dget D v).foldl (fun st x =>
+      (ord D v).foldl (fun st x =>
         if st.stop then st
         else match propagate repaired cs (totalSize D + 1) (dset D v [x]) with
           | none => st
-          | some D' => backtrack repaired cs limit fuel D' st) st
+          | some D' => backtrackG sel ord repaired cs limit fuel D' st) st
+
+/-- what the proofs need of the variable selection: `none` only when every domain has at most one
+value, `some v` only for a variable with at least two -/
+def SelOK (sel : Doms → Option Nat) : Prop :=
+  ∀ D, (sel D = none → ∀ i, i < D.length → (dget D i).length ≤ 1) ∧
+    ∀ v, sel D = some v → v < D.length ∧ (dget D v).length > 1
+
+/-- what the proofs need of the value order: it lists exactly the values of the domain -/
+def OrdOK (ord : Doms → Nat → List Int) : Prop := ∀ D v x, x ∈ ord D v ↔ x ∈ dget D v
+
+/-- the mirror's concrete choice: MRV, values in domain (ascending) order -/
+abbrev backtrack := backtrackG pickVar (fun D v => dget D v)
 
 def initDoms (vars : List VarDecl) (hints : List (Nat × Int)) : Doms :=
   hints.foldl (fun D h => if (dget D h.1).contains h.2 then dset D h.1 [h.2] else D)
     (vars.map fun d => irange d.lb d.ub)
 
-/-- `_solve_dfs` (without the SAT fallback): the list of solutions found, `[]` = INFEASIBLE -/
-def dfsSolve (repaired : Bool) (M : Model) (hints : List (Nat × Int)) (limit : Nat) : List Asg :=
+/-- `_solve_dfs` (without the SAT fallback), generic in selection and value order: the list of
+solutions found, `[]` = INFEASIBLE -/
+def dfsSolveG (sel : Doms → Option Nat) (ord : Doms → Nat → List Int) (repaired : Bool) (M : Model)
+    (hints : List (Nat × Int)) (limit : Nat) : List Asg :=
   let D := initDoms M.vars hints
   -- repaired: a variable with an empty domain (lb > ub) has no value
   if repaired && D.any List.isEmpty then [] else
   match propagate repaired M.cons (totalSize D + 1) D with
   | none => []
-  | some D' => (backtrack repaired M.cons limit (totalSize D' + 1) D' ⟨[], false⟩).sols
+  | some D' => (backtrackG sel ord repaired M.cons limit (totalSize D' + 1) D' ⟨[], false⟩).sols
+
+/-- the executable mirror: MRV and ascending values -/
+abbrev dfsSolve := dfsSolveG pickVar (fun D v => dget D v)
 
 end Solvor.Cp
